@@ -123,13 +123,25 @@ def strict_loads(text):
     return json.loads(text, parse_constant=bad)
 
 
+def _pairs(s):
+    """A high surrogate directly followed by a low one IS the supplementary code point once written as \\uD8xx\\uDCxx: JSON (like
+    UTF-16) cannot tell the two apart, and neither can json.dumps/json.loads themselves."""
+    try:
+        return s.encode('utf-16', 'surrogatepass').decode('utf-16', 'surrogatepass')
+    except UnicodeError:
+        return s
+
+
 def same_json(a, b):
     if type(a) is not type(b):
         return False
+    if isinstance(a, str):
+        return _pairs(a) == _pairs(b)
     if isinstance(a, list):
         return len(a) == len(b) and all(same_json(x, y) for x, y in zip(a, b))
     if isinstance(a, dict):
-        return list(a.keys()) == list(b.keys()) and all(same_json(a[k], b[k]) for k in a)
+        return [_pairs(k) for k in a.keys()] == [_pairs(k) for k in b.keys()] and \
+            all(same_json(x, y) for x, y in zip(a.values(), b.values()))
     return a == b
 
 
